@@ -109,6 +109,29 @@ func TestVerifC20(t *testing.T) {
 		}()
 		return Less(a, b)
 	}
+	// the order every sort uses (sort.Sort(Order(a)), natsort.Strings) is Less itself
+	ord := Order(ss)
+	for i := range ss {
+		for j := range ss {
+			cases++
+			if got, want := ord.Less(i, j), less(ss[i], ss[j]); got != want {
+				fail("Order.Less(%q, %q) = %v, Less = %v", ss[i], ss[j], got, want)
+			}
+		}
+	}
+	{
+		cp := append([]string{}, ss...)
+		for i, j := 0, len(cp)-1; i < j; i, j = i+1, j-1 {
+			cp[i], cp[j] = cp[j], cp[i]
+		}
+		Strings(cp)
+		for i := 0; i+1 < len(cp); i++ {
+			if less(cp[i+1], cp[i]) {
+				fail("Strings leaves %q before %q", cp[i], cp[i+1])
+				break
+			}
+		}
+	}
 	n := len(ss)
 	lt := make([][]bool, n)
 	for i := range ss {
